@@ -37,6 +37,9 @@ type Outcome struct {
 	// Trivial cases are counted as evaluations but not as non-trivial.
 	Trivial bool
 	Viol    *Violation
+	// NoRecheck: the violation cannot be re-observed by re-executing the case in the same
+	// process (e.g. a data-race report, which the detector prints once per process).
+	NoRecheck bool
 	// Sample, when non-nil, may be shown in the evidence file.
 	Sample any
 }
@@ -116,6 +119,15 @@ func (c *Ctx) Expired() bool {
 		return true
 	}
 	return false
+}
+
+// Heartbeat tells the parent the worker is alive (long-running cases call it periodically).
+func (c *Ctx) Heartbeat() {
+	if time.Since(c.lastHB) > 3*time.Second {
+		c.lastHB = time.Now()
+		c.send(msg{T: "hb"})
+		c.out.Flush()
+	}
 }
 
 // Count adds to a named counter (states, transitions, ...), summed by the parent.
@@ -236,7 +248,7 @@ func (c *Ctx) DoMine(id string, f func() Outcome) {
 	if o.Viol != nil {
 		// a failing case must fail every time: re-execute before reporting
 		stable := true
-		for i := 0; i < 4 && stable; i++ {
+		for i := 0; i < 4 && stable && !o.NoRecheck; i++ {
 			var o2 Outcome
 			func() {
 				defer func() {
